@@ -147,6 +147,20 @@ def compare(canon, other, rec):
         return None
     # both accept: identical
     if cv != ov:
+        if (
+            cv[1] and ov[1] and cm and len(cm) == len(om)
+            and cm[-1][0][0] == "CONNECT" and om[-1][0][0] == "CONNECT"
+            and bytes(cm[-1][1]) + cv[2] == bytes(om[-1][1]) + ov[2]
+        ):
+            # listed mechanism (F46): the bytes behind a CONNECT head are the tunnel; those that arrive in the
+            # same read as the head land in the request's content, later ones in the upgrade tail.  Nothing is
+            # lost or reordered (checked above); every message before the CONNECT must still be identical.
+            for i, (a, b) in enumerate(zip(cm[:-1], om[:-1])):
+                f = diff_msg(a, b, allow_partial=False)
+                if f:
+                    return f"accepted:message-differs:{f}", f"message {i}: {f}"
+            if cm[-1][0] == om[-1][0] and cm[-1][4] == om[-1][4]:
+                return "accepted:connect-tunnel-bytes-content-vs-tail", f"{cv!r} vs {ov!r}"
         return "accepted:upgrade-or-tail-differs", f"{cv!r} vs {ov!r}"
     if len(cm) != len(om):
         return "accepted:message-count", f"canonical {len(cm)} messages, this segmentation {len(om)}"
